@@ -371,7 +371,7 @@ pub fn run(ctx: &Ctx, replay: Option<&J>) -> CheckResult {
                     go(*y, *x, z, &mut ev, &mut vs, "order/recognised-vs-other", false);
                 }
             }
-            let n = ctx.n(3_000_000, 60_000_000) / 7;
+            let n = ctx.n(3_000_000, 300_000_000) / 7;
             for _ in 0..n {
                 let x = sample_desc(&mut rng, c);
                 let y = sample_desc(&mut rng, c);
